@@ -33,6 +33,9 @@ structure ABlock where
   burnfee : Nat
   hasGT : Bool
   ok : Bool
+  /-- oracle: `Block::validate` passes when the block's PARENT IS NOT IN THE STORE and the cv fields are compared
+      (no previous block: averages restart from zero, burn fee / difficulty are copied from the block) -/
+  okNoParent : Bool := true
   ins : List Nat
   outs : List Nat
   /-- amounts of the keys in `ins` / `outs` (same order), used only by the node's own supply check -/
@@ -247,8 +250,12 @@ inductive WR where
     Only then does `Block::validate` / `Transaction::validate` check inputs against the utxo set. -/
 def againstUtxo (st : State) : Bool := (lcHashAt st 1).isSome
 
+/-- `Block::validate` as the loop sees it. The oracle bit `ok` (honest header) only matters when the parent is in
+    the store: without a previous block the consensus values (burn fee, difficulty) are copied from the block itself
+    and the parent-relative checks are skipped, so a tampered header passes. -/
 def validB (fl : Flags) (st : State) (b : ABlock) : Bool :=
-  b.ok && (!fl.txVerdict || !againstUtxo st || b.ins.all (· ∈ st.utxo))
+  (if (getB st b.prev).isSome then b.ok else (b.okNoParent || !againstUtxo st)) &&
+    (!fl.txVerdict || !againstUtxo st || b.ins.all (· ∈ st.utxo))
 
 def windBlock (st : State) (b : ABlock) : State :=
   let st := ringReorg st b.id b.hash true
